@@ -12,6 +12,26 @@ NOT_BUILT = "check not built yet in this round (claimed by DESIGN.md; " \
             "listed here until its static check exists and is exact)"
 
 CHECKS = {
+    "C04": {
+        "text": "The acceptance condition of PackingSpace.validate is "
+                "reconstructed from every raise guard and decided "
+                "equivalent to the feasibility clauses (id range, bin "
+                "range, proper rectangle inside the bin, dimensions plain "
+                "or rotated, no overlap within a bin, multiplicities, "
+                "contiguous bins, n_bins) on all weak orderings of the "
+                "compared values - exhaustive up to order-isomorphism of "
+                "packings; loop completeness and from_str->validate "
+                "must-pass-through are decided on the CFG.",
+        "design_ref": "DESIGN.md section 4, C04",
+        "note": "Decides D4.1, D4.1L, D4.1T, D4.2. Not decided: value-level "
+                "equality of the text round trip (numpy conversion); extra "
+                "over-strict guards on values outside the clause tables are "
+                "noted, not judged. Trusted: int() of an integer array "
+                "element is the identity; check_int_range returns its "
+                "argument or raises.",
+        "technique": "guard extraction by symbolic walk + exhaustive "
+                     "weak-ordering equivalence + CFG dominance",
+    },
     "C16": {
         "text": "Every njit controller kernel reachable from a "
                 "Controller(...) factory and the three system kernels are "
